@@ -100,6 +100,8 @@ def enabled(cfg):
                 return False
             if a['kind'] in ('hdr', 'hdrbad'):
                 return a['t'] not in s['binbuf']
+            if a['kind'] == 'text' and a['t'] not in s['binbuf']:
+                return False
             return a['t'] not in s['binbuf'] or \
                 len(s['binbuf'][a['t']]['atts']) < 3
         if act == 'Emit':
@@ -197,6 +199,7 @@ def events(cfg):
                             ns=ns, id=cfg['ids'][-1], ev='e_tup2', n=n))
         A.append(mk('RxFrame', t=t, kind='att', b='b1'))
         A.append(mk('RxFrame', t=t, kind='att', b='b2'))
+        A.append(mk('RxFrame', t=t, kind='text', b='tx1'))
     return _mp_filter(cfg, A)
 
 
